@@ -722,6 +722,105 @@ def tls_relay(kt, creq, client_cert, alter=None, trace=None):
             "s_done": s.state == tls.State.SERVER_POST_HANDSHAKE}
 
 
+def _relay(c, s):
+    """Relay every handshake message between a real client and server Context until quiescence;
+    an exception kills the endpoint that raised.  Returns {'c': exc name|None, 's': ...}."""
+    ctx = {"c": c, "s": s}
+    bufs = {"c": _bufs(), "s": _bufs()}
+    dead = {"c": None, "s": None}
+    c.handle_message(b"", bufs["c"])
+    pending = [("s", m) for m in R.split_messages(_drain(bufs["c"]))]
+    n = 0
+    while pending and n < 64:
+        n += 1
+        dst, raw = pending.pop(0)
+        if dead[dst] is not None:
+            continue
+        try:
+            ctx[dst].handle_message(raw, bufs[dst])
+        except Exception as e:  # noqa
+            dead[dst] = type(e).__name__
+            continue
+        pending += [("c" if dst == "s" else "s", m) for m in R.split_messages(_drain(bufs[dst]))]
+    return dead
+
+
+def tls_resumption_pair(job):
+    """tls level: ticket issued by a server whose cipher-suite list is `first`, redeemed at a server
+    whose list is `second` (the client offers `client` both times).  Returns what both Contexts hold
+    after the second handshake."""
+    first, second, client = job
+    store = {}
+    tickets = []
+
+    def mk(server_suites, ticket):
+        c = tls.Context(is_client=True, alpn_protocols=["a"], cadata=cadata(), server_name="localhost",
+                        cipher_suites=[tls.CipherSuite(x) for x in client])
+        c.handshake_extensions = [(tls.ExtensionType.QUIC_TRANSPORT_PARAMETERS, TP_C)]
+        c.new_session_ticket_cb = tickets.append
+        c.session_ticket = ticket
+        s = tls.Context(is_client=False, alpn_protocols=["a"], cipher_suites=[tls.CipherSuite(x) for x in server_suites],
+                        max_early_data=0xFFFFFFFF)
+        s.certificate, s.certificate_chain, s.certificate_private_key = load_chain("ed25519", "valid")
+        s.handshake_extensions = [(tls.ExtensionType.QUIC_TRANSPORT_PARAMETERS, TP_S)]
+        s.new_session_ticket_cb = lambda t: store.__setitem__(t.ticket, t)
+        s.get_session_ticket_cb = store.get
+        keys = {"c": [], "s": []}
+        c.update_traffic_key_cb = lambda d, e, cs, sec: keys["c"].append((d.name, e.name, int(cs), bytes(sec)))
+        s.update_traffic_key_cb = lambda d, e, cs, sec: keys["s"].append((d.name, e.name, int(cs), bytes(sec)))
+        return c, s, keys
+
+    c, s, _ = mk(first, None)
+    _relay(c, s)
+    if not tickets:
+        return {"ticket": False}
+    c, s, keys = mk(second, tickets[0])
+    dead = _relay(c, s)
+    flip = {"ENCRYPT": "DECRYPT", "DECRYPT": "ENCRYPT"}
+    ck = sorted((flip[d], e, cs, sec) for d, e, cs, sec in keys["c"] if e != "ZERO_RTT")
+    sk = sorted((d, e, cs, sec) for d, e, cs, sec in keys["s"] if e != "ZERO_RTT")
+    return {"ticket": True, "dead": dead,
+            "c_done": c.state == tls.State.CLIENT_POST_HANDSHAKE, "s_done": s.state == tls.State.SERVER_POST_HANDSHAKE,
+            "c_suite": int(c.key_schedule.cipher_suite) if c.key_schedule else None,
+            "s_suite": int(s.key_schedule.cipher_suite) if s.key_schedule else None,
+            "c_resumed": c.session_resumed, "s_resumed": s.session_resumed,
+            "keys_equal": ck == sk,
+            "key_suites": sorted(set((e, cs) for _, e, cs, _ in ck) ^ set((e, cs) for _, e, cs, _ in sk))}
+
+
+def part_tls_resumption(ctx, workers):
+    """Every ordered pair (first, second) of server cipher-suite lists (15 x 15) with a client offering
+    all three: whenever both Contexts complete the second handshake they must agree on cipher suite,
+    resumption status and every traffic secret *with the suite it is installed for*."""
+    jobs = [(a, b, list(SUITES)) for a in DIMS["cs_s"] for b in DIMS["cs_s"]]
+    res = core.pmap(tls_resumption_pair, jobs, workers=workers, chunksize=16)
+    outcomes = {}
+    for (a, b, cl), r in zip(jobs, res):
+        if not r["ticket"]:
+            raise core.HarnessError("no ticket from a first tls handshake with server suites %r" % (a,))
+        o = (r["c_done"], r["s_done"], r["c_resumed"], r["c_suite"] == r["s_suite"])
+        outcomes[o] = outcomes.get(o, 0) + 1
+        rp = {"part": "tls_resumption", "first": a, "second": b, "client": cl}
+        if not (r["c_done"] and r["s_done"]):
+            ctx.violation({"monitor": "legal_handshake_failed", "level": "tls", "dims": ["cs_s", "first"]},
+                          "ticket issued under server suites %r, redeemed under %r (client offers all): the tls "
+                          "handshake does not complete (%r)" % (a, b, r["dead"]), rp)
+            continue
+        if r["c_suite"] != r["s_suite"] or not r["keys_equal"]:
+            ctx.violation({"monitor": "cipher_suite_differs", "level": "tls", "resumed": bool(r["c_resumed"])},
+                          "ticket issued under server suites %r, redeemed under %r: both complete (resumed=%s) but the "
+                          "client holds suite %#x and the server %#x; traffic keys installed with differing "
+                          "(epoch, suite): %r" % (a, b, r["c_resumed"], r["c_suite"], r["s_suite"], r["key_suites"]), rp)
+        elif r["c_resumed"] != r["s_resumed"]:
+            ctx.violation({"monitor": "resumption_status_differs", "level": "tls"},
+                          "session_resumed: client %r, server %r (suites %r -> %r)" % (r["c_resumed"], r["s_resumed"], a, b), rp)
+    if len(outcomes) < 2 and not ctx.violations:
+        raise core.HarnessError("tls_resumption vacuous: %r" % outcomes)
+    ctx.part("agreement_tls_resumption_suite_pairs", evaluations=len(jobs), transitions=2 * len(jobs),
+             distinct_nontrivial=len(outcomes), resumed=sum(v for k, v in outcomes.items() if k[2]),
+             full_handshake_instead=sum(v for k, v in outcomes.items() if not k[2]))
+
+
 def _tls_job(job):
     kt, creq, ccert, alter = job
     r = tls_relay(kt, creq, ccert, alter)
@@ -1181,6 +1280,7 @@ def run(ctx):
     if "auth" in parts:
         part_auth(ctx, w)
     if "agreement" in parts:
+        part_tls_resumption(ctx, w)
         part_agreement(ctx, w, cross_resumption_specs(), "agreement_resumption_across_config_change",
                        need_none=False)
         if quick:
@@ -1249,6 +1349,11 @@ def replay(ctx, obj):
         print("\n".join(res["trace"][-40:]))
         print("  altered %d packets; client done %s, server done %s" % (mon.altered, res["c_done"], res["s_done"]))
         bad = res["s_done"] if rp["alter"]["msg"] == "CH" else res["c_done"]
+    elif part == "tls_resumption":
+        r = tls_resumption_pair((rp["first"], rp["second"], rp["client"]))
+        print("  first server suites %r, second %r -> %r" % (rp["first"], rp["second"], r))
+        bad = not (r["c_done"] and r["s_done"]) or r["c_suite"] != r["s_suite"] or not r["keys_equal"] \
+            or r["c_resumed"] != r["s_resumed"]
     elif part == "auth_quic_rogue":
         bad = False
         for case, done, code in quic_rogue_flights():
